@@ -107,6 +107,13 @@ fn main() {
             let seed: u64 = args[2].parse().unwrap_or(0);
             session::random(seed, args[3].parse().unwrap_or(1), args[4].parse().unwrap_or(10), &args[5]);
         }
+        "session-soak" => {
+            let seed: u64 = args[2].parse().unwrap_or(0);
+            session::soak(seed, args[3].parse().unwrap_or(1), args[4].parse().unwrap_or(10), &args[5]);
+        }
+        "sync-lockstep" => {
+            synctrial::lockstep(args[2].parse().unwrap_or(0), args[3].parse().unwrap_or(4), args[4].parse().unwrap_or(10), &args[5], &args[6]);
+        }
         "sync-trial" => {
             synctrial::trial(args[2].parse().unwrap_or(0), args[3].parse().unwrap_or(4), args[4].parse().unwrap_or(10), &args[5], &args[6]);
         }
